@@ -206,7 +206,45 @@ def check_last(spec, hist, ctx, count_from=0):
                   ['oracle:get-input', 'via:name'], inputs, False)
     ctx.check(key + '#get-pure', run.fp(), before, ['oracle:get-pure'], inputs,
               False)
+    if len(hist) <= 2 and spec.formulas:
+        # on a twin: the run itself is handed back for fingerprinting
+        twin = Run(spec)
+        for o in hist:
+            twin.apply(o)
+        foreign_sets(spec, twin, key, inputs, ctx)
     return run
+
+
+SENTINEL = 990099
+
+
+def foreign_sets(spec, run, key, inputs, ctx):
+    """set_cell_value calls on ANOTHER model (one extracted from this one)
+    are not part of this model's history: its inputs and values stay."""
+    try:
+        ext = lib.ModelCompiler.extract(run.model, focus=list(spec.formulas))
+    except Exception:  # noqa: BLE001   (extract itself is C13's business)
+        return
+    for a in spec.inputs:
+        if run.inputs[a] is not None and a in ext.cells:
+            lib.observe(ext.set_cell_value, a, SENTINEL)
+    tags = ['oracle:get-input', 'foreign:set-on-extracted-model']
+    for a in spec.inputs:
+        if run.inputs[a] is None:
+            continue
+        g = lib.observe(run.ev.get_cell_value, a)
+        ctx.check(key + '#foreign-get/' + a, g, lib.norm(run.inputs[a]), tags,
+                  inputs, True)
+    want = spec.reference(run.inputs)
+    for c in spec.formulas[:2]:
+        got = lib.observe(run.ev.evaluate, c)
+        w = models.obs(want[c], lib)
+        if models.agrees(got, w):
+            ctx.ok(key + '#foreign-eval/' + c, got, True)
+        else:
+            ctx.fail(key + '#foreign-eval/' + c,
+                     ['oracle:reference', 'foreign:set-on-extracted-model'],
+                     inputs, w, got, True)
 
 
 def plan(tier):
